@@ -167,6 +167,68 @@ pub fn check_input_two_faults(alg: Algorithm, old: &[u8], new: &[u8]) -> Result<
     Ok(Out { nontrivial: any, transitions, fp: fp.0, runs })
 }
 
+/// the protocol clauses on one large input (bare hook and Compact<Replace<hook>>): success run
+/// and a handful of failing call indices
+pub fn check_large(alg: Algorithm, inp: &super::large::LargeInput) -> Result<(bool, u64, u64), String> {
+    let (old, new) = (&inp.old[..], &inp.new[..]);
+    let (n, m) = (old.len(), new.len());
+    let run = |stack: usize, k: Option<usize>| -> Result<(Vec<Call>, Result<(), usize>), String> {
+        subject(|| {
+            if stack == 0 {
+                let mut h = Rec::failing(k);
+                let r = raw_into(alg, 0, &mut h, old, 0..n, new, 0..m, None);
+                (h.calls, r)
+            } else {
+                let mut h = Compact::new(Replace::new(Rec::failing(k)), old, new);
+                let r = raw_into(alg, 0, &mut h, old, 0..n, new, 0..m, None);
+                (h.into_inner().into_inner().calls, r)
+            }
+        })
+        .map_err(|p| format!("panic: {}", p))
+    };
+    let mut fp = Fp::new();
+    let mut tr = 0;
+    for stack in 0..2 {
+        let name = STACKS[if stack == 0 { 0 } else { 3 }];
+        let (success, r) = run(stack, None)?;
+        if let Err(e) = r {
+            return Err(format!("{}: diff returned Err({}) although no hook call failed", name, e));
+        }
+        let fins = success.iter().filter(|c| **c == Call::Fin).count();
+        if fins != 1 || success.last() != Some(&Call::Fin) {
+            let pos: Vec<usize> = success.iter().enumerate().filter(|(_, c)| **c == Call::Fin).map(|(i, _)| i).collect();
+            return Err(format!(
+                "{}: finish reached the hook {} times (at calls {:?} of {}), expected once and last",
+                name,
+                fins,
+                pos,
+                success.len()
+            ));
+        }
+        fp.add(calls_fp(&success));
+        tr += success.len() as u64;
+        let len = success.len();
+        let mut ks = vec![0, 1, len / 3, len / 2, len.saturating_sub(2), len - 1];
+        ks.retain(|&k| k < len);
+        ks.sort();
+        ks.dedup();
+        for k in ks {
+            let (calls, r) = run(stack, Some(k))?;
+            if r != Err(k) || calls.len() != k + 1 || calls[..] != success[..k + 1] {
+                return Err(format!(
+                    "{}: hook failed at call {} of {}: diff returned {:?} and the hook saw {} calls",
+                    name,
+                    k,
+                    len,
+                    r,
+                    calls.len()
+                ));
+            }
+        }
+    }
+    Ok((true, tr, fp.0))
+}
+
 fn expand_replace(calls: &[Call]) -> Vec<Call> {
     let mut v = vec![];
     for c in calls {
@@ -477,10 +539,35 @@ pub fn run(cfg: &RunCfg) -> CheckReport {
         });
     });
     rep.part("expiry-and-failure", json!({"scopes": space2.describe(), "stacks": [STACKS[0], STACKS[3]], "faults": "every expiry probe x every failing call index"}), ex);
+    if rep.has_violation() {
+        return rep;
+    }
+    // enumerated large inputs: success protocol and six failing call positions each
+    super::large::run_part(cfg, &mut rep, &ALGS, &|a| if a == Algorithm::Lcs { 300 } else { usize::MAX }, check_large);
+    if rep.has_violation() {
+        return rep;
+    }
+    // LCS beyond a million table cells (size-triggered fallbacks): two inputs, LCS only
+    let big = super::large::lcs_big();
+    let ex = explore(cfg, big.len(), |shard, acc| {
+        let inp = &big[shard];
+        match check_large(Algorithm::Lcs, inp) {
+            Ok((nt, tr, fp)) => {
+                acc.sample(super::large::case_json(Algorithm::Lcs, inp, cfg.seed));
+                acc.ok(nt, tr, fp);
+            }
+            Err(e) => acc.violation(|| (super::large::case_json(Algorithm::Lcs, inp, cfg.seed), format!("{}: {}", inp.name, e))),
+        }
+    });
+    rep.part("lcs-beyond-2^20-cells", json!({"inputs": big.iter().map(|i| i.name.clone()).collect::<Vec<_>>()}), ex);
     rep
 }
 
 pub fn replay(case: &Value) -> Result<String, String> {
+    if let Some(r) = super::large::resolve(case) {
+        let (alg, inp) = r?;
+        return check_large(alg, &inp).map(|o| format!("holds; fingerprint {:x}", o.2));
+    }
     if case.get("wrapper_protocol").is_some() {
         return wrapper_protocol().map(|n| format!("holds; {} scripts", n));
     }
